@@ -9,10 +9,11 @@ from uuid import UUID
 
 from pydiverse.transform._internal import errors
 from pydiverse.transform._internal.backend.table_impl import TableImpl
+from pydiverse.transform._internal.ops import ops
 from pydiverse.transform._internal.ops.op import Ftype
 from pydiverse.transform._internal.tree import types, verbs
 from pydiverse.transform._internal.tree.ast import AstNode
-from pydiverse.transform._internal.tree.col_expr import Col, ColFn
+from pydiverse.transform._internal.tree.col_expr import Cast, Col, ColFn, LiteralCol
 
 
 @dataclasses.dataclass(slots=True)
@@ -289,6 +290,13 @@ class Cache:
             ):
                 return "left / full join with a table containing a constant column"
 
+            is_right = node.child not in self.derived_from
+            if (node.how == "full" or (is_right and node.how == "left")) and not all(
+                null_for_null_input(self.cols[uid], node.right if is_right else node.child)
+                for uid in self.uuid_to_name.keys()
+            ):
+                return "left / full join with a table containing a column that is not null if all its inputs are null"
+
             if any(self.cols[uid].ftype() == Ftype.WINDOW for uid in self.uuid_to_name.keys()):
                 return "join with a table containing window function expression"
 
@@ -313,6 +321,61 @@ class Cache:
 
     def selected_cols(self) -> list[Col]:
         return [self.cols[uid] for uid in self.uuid_to_name.keys()]
+
+
+def null_for_null_input(expr, root: AstNode) -> bool:
+    """
+    Whether `expr` is certainly NULL on a row where all columns of the table `root` are
+    NULL. The rows an outer join adds for one side are such rows, so only expressions
+    with this property may be computed after the join instead of before it.
+    """
+
+    if isinstance(expr, Col):
+        # find the definition of the column
+        nd, uid = root, expr._uuid
+        while isinstance(nd, verbs.Verb):
+            if isinstance(nd, verbs.SubqueryMarker):
+                return True  # computed in the subquery
+            if isinstance(nd, verbs.Alias) and nd.uuid_map is not None:
+                uid = next((old for old, new in nd.uuid_map.items() if new == uid), uid)
+            elif isinstance(nd, verbs.Summarize) and uid in nd.uuids:
+                return False
+            elif isinstance(nd, verbs.Mutate) and uid in nd.uuids:
+                return null_for_null_input(nd.values[nd.uuids.index(uid)], nd.child)
+            elif isinstance(nd, verbs.Join | verbs.Union):
+                col = Col(expr.name, expr._ast, uid, expr._dtype, expr._ftype)
+                return null_for_null_input(col, nd.child) and null_for_null_input(col, nd.right)
+            nd = nd.child
+        return True
+    if isinstance(expr, LiteralCol):
+        return expr.val is None
+    if isinstance(expr, Cast):
+        return null_for_null_input(expr.val, root)
+    if isinstance(expr, ColFn) and expr.op.ftype == Ftype.ELEMENT_WISE:
+        if expr.op in (ops.is_null, ops.is_not_null):
+            return False
+        if expr.op == ops.is_in:
+            return null_for_null_input(expr.args[0], root) or all(null_for_null_input(arg, root) for arg in expr.args[1:])
+        if expr.op == ops.clip:
+            return null_for_null_input(expr.args[0], root)
+        if expr.op in (
+            ops.fill_null,
+            ops.coalesce,
+            ops.horizontal_max,
+            ops.horizontal_min,
+            ops.horizontal_sum,
+            ops.horizontal_any,
+            ops.horizontal_all,
+            ops.bool_and,
+            ops.bool_or,
+            ops.bool_xor,
+        ):
+            # these can be non-null although an argument is null
+            return all(null_for_null_input(arg, root) for arg in expr.args)
+        # all other element-wise operators are null as soon as one argument is
+        return any(null_for_null_input(arg, root) for arg in expr.args)
+    # case expressions, window / aggregation functions, ...
+    return False
 
 
 def transfer_col_references(table, ref_source):
